@@ -47,7 +47,9 @@ DRIVER = "PorepyVerif/C23/Driver.lean"
 N = {"quick": 400, "thorough": 8000}
 TOL = 1e-9
 RULE = ("one call per case. Base grids: 1-d line grids with 1-6 (thorough 1-12) cells of unequal rational lengths along a rational direction in "
-        "1/2/3-d, node numbering and cell order permuted in half of the cases, an interior node split in ~15% (as at a fracture intersection); "
+        "1/2/3-d, node numbering and cell order permuted in half of the cases, an interior node split in ~15% (as at a fracture intersection), "
+        "face numbering different from node numbering (face_nodes a permutation, not the identity) in 40%; for extrusion also the 1-d fracture grids of "
+        "pp.meshing.cart_grid networks (X crossing, T, doubly crossed, immersed) whose split nodes make face_nodes a permutation; "
         "triangle grids: one triangle, structured nx x ny (1-3, thorough 1-5) with the diagonal direction chosen per square and interior nodes "
         "jittered by up to 1/4 cell, fans of 3-8 triangles around a node, all mapped by a dyadic affine map, node numbering permuted, cell order "
         "shuffled, vertex order rotated; Cartesian 2-d grids nx x ny (1-3) with jittered nodes (convex quadrilaterals) and affine map; point grids. "
@@ -157,7 +159,25 @@ def _gen_line(rng, tier, planar=False, connected=False):
     if rng.random() < 0.5:
         rng.shuffle(cells)
     nodes = [[frac(p0[i] + tj * d[i]) for i in range(3)] for tj in tt]
-    return {"type": "line", "nodes": nodes, "cells": cells, "t": [frac(x) for x in tt]}
+    base = {"type": "line", "nodes": nodes, "cells": cells, "t": [frac(x) for x in tt]}
+    if rng.random() < 0.4:  # face numbering differs from node numbering: face f sits at node faces[f] (as after node splitting)
+        faces = list(range(n))
+        rng.shuffle(faces)
+        base["faces"] = faces
+    return base
+
+
+FRAC_NETS = [
+    {"n": [4, 4], "fracs": [[[1, 3], [2, 2]], [[2, 2], [1, 3]]]},  # X crossing: the split node gives face_nodes != identity
+    {"n": [3, 3], "fracs": [[[0, 2], [1, 1]], [[2, 2], [1, 3]]]},  # T
+    {"n": [4, 2], "fracs": [[[0, 4], [1, 1]], [[1, 1], [0, 2]], [[3, 3], [0, 2]]]},  # one fracture crossed twice
+    {"n": [3, 3], "fracs": [[[1, 2], [1, 1]]]},  # immersed, no split
+]
+
+
+def _gen_frac(rng):
+    net = rng.choice(FRAC_NETS)
+    return {"type": "frac", "n": net["n"], "fracs": net["fracs"], "which": rng.randrange(len(net["fracs"]))}
 
 
 def _affine(rng):
@@ -274,6 +294,8 @@ def gen_case(rng, tier):
         v = rng.random()
         if v < 0.12:
             base = {"type": "point", "xyz": [frac(_dy(rng, -4, 4)), frac(_dy(rng, -4, 4)), frac(_dy(rng, -1, 1))]}
+        elif v < 0.12 + 0.08:
+            base = _gen_frac(rng)
         elif v < 0.42:
             base = _gen_line(rng, tier, planar=True)
         elif v < 0.72:
@@ -302,9 +324,15 @@ def build_base(base):
         x = _fl(base["nodes"])
         n = x.shape[1]
         cells = base["cells"]
-        cf = sps.csc_matrix((np.array([-1, 1] * len(cells)), np.array([v for c in cells for v in c]), np.arange(0, 2 * len(cells) + 1, 2)),
+        faces = base.get("faces", list(range(n)))  # face f is node faces[f]
+        face_of = {node: f for f, node in enumerate(faces)}
+        cf = sps.csc_matrix((np.array([-1, 1] * len(cells)), np.array([face_of[v] for c in cells for v in c]), np.arange(0, 2 * len(cells) + 1, 2)),
                             shape=(n, len(cells)))
-        g = pp.Grid(1, x, sps.identity(n, format="csc"), cf, "line")
+        fn = sps.csc_matrix((np.ones(n, dtype=bool), np.array(faces), np.arange(n + 1)), shape=(n, n))
+        g = pp.Grid(1, x, fn, cf, "line")
+    elif ty == "frac":
+        mdg = pp.meshing.cart_grid([np.array(f, dtype=float) for f in base["fracs"]], base["n"])
+        g = mdg.subdomains(dim=1)[base["which"]]
     elif ty == "tri":
         g = pp.TriangleGrid(_fl(base["nodes"]), np.array(base["tris"], dtype=int).T.copy())
     elif ty == "cart":
@@ -509,7 +537,7 @@ def model_decode(outs, case):
     if k in ("extrude", "extrude_err"):
         out = {"nodes": o["nodes"], "fn": [sorted(f) for f in o["fn"]], "cf": [sorted(c) for c in o["cf"]],
                "cell_map": o["cell_map"], "face_map": o["face_map"]}
-        if case["base"]["type"] == "line":
+        if case["base"]["type"] in ("line", "frac"):
             # sign convention of _extrude_1d at the pinned commit: (-1, +1) by stored position (see compare)
             out["_cf_positional"] = [sorted([[c[0][0], -1], [c[1][0], 1]] + c[2:]) for c in o["cf"]]
         return out
@@ -988,6 +1016,9 @@ def _oracle(case):
 
 # ----------------------------------------------------------------------------- bookkeeping
 def _ncells(base):
+    if base["type"] == "frac":
+        f = base["fracs"][base["which"]]
+        return int(abs(f[0][1] - f[0][0]) + abs(f[1][1] - f[1][0]))
     return {"line": lambda b: len(b["cells"]), "tri": lambda b: len(b["tris"]), "cart": lambda b: b["nx"] * b["ny"], "point": lambda b: 1}[base["type"]](base)
 
 
@@ -1036,4 +1067,5 @@ def stats(cases, impl_outs):
             layers[key] = layers.get(key, 0) + 1
     return {"kinds": kinds, "base_type:cells(max 10)": dict(sorted(bases.items())), "ratios": ratios, "layers(sign)": layers,
             "errors": sum(1 for o in impl_outs if isinstance(o, dict) and "err" in o),
+            "lines_with_permuted_face_numbering": sum(1 for c in cases if c.get("base", {}).get("type") == "frac" or "faces" in c.get("base", {})),
             "split_node_lines": sum(1 for c in cases if c.get("base", {}).get("type") == "line" and len(c["base"]["nodes"]) > len(c["base"]["cells"]) + 1)}
